@@ -679,3 +679,63 @@ func SelfTest() error {
 	}
 	return nil
 }
+
+// WalkChunks follows the aws-chunked framing of body the way a decoder does (size field up to ';' or CRLF,
+// then that many data bytes, then CRLF) and returns the concatenated data and how the walk ended:
+// "final" (zero-length chunk seen), "inside-chunk" (a declared chunk reaches or passes the end of the body:
+// the stream ends inside, or exactly at the end of, a chunk's data), "at-boundary" (the body ends after a
+// complete chunk, no zero-length chunk), "malformed".
+func WalkChunks(body []byte) (data []byte, end string) {
+	i := 0
+	for i < len(body) {
+		nl := bytes.IndexByte(body[i:], '\n')
+		if nl < 0 {
+			return data, "malformed"
+		}
+		line := strings.TrimRight(string(body[i:i+nl]), "\r")
+		field, _, _ := strings.Cut(line, ";")
+		n, err := strconv.ParseUint(field, 16, 63)
+		if err != nil {
+			return data, "malformed"
+		}
+		i += nl + 1
+		if n == 0 {
+			return data, "final"
+		}
+		if uint64(len(body)-i) <= n {
+			return append(data, body[i:]...), "inside-chunk"
+		}
+		data = append(data, body[i:i+int(n)]...)
+		i += int(n) + 2
+	}
+	return data, "at-boundary"
+}
+
+// OversizeChunk rewrites the size field of the chunk at c so that its data runs exactly to the end of the
+// body. keepLen: the total body length stays what it was (bytes are dropped from the end), so a signed
+// Content-Length still matches.
+func OversizeChunk(body []byte, c ChunkPos, keepLen bool) ([]byte, bool) {
+	for fl := 1; fl <= 8; fl++ {
+		delta := fl - (c.SizeEnd - c.HeaderStart)
+		total := len(body) + delta
+		if keepLen {
+			total = len(body)
+		}
+		remaining := total - (c.DataStart + delta)
+		if remaining <= 0 {
+			continue
+		}
+		f := strconv.FormatInt(int64(remaining), 16)
+		if len(f) != fl {
+			continue
+		}
+		nb := append([]byte(nil), body[:c.HeaderStart]...)
+		nb = append(nb, f...)
+		nb = append(nb, body[c.SizeEnd:]...)
+		if len(nb) < total {
+			return nil, false
+		}
+		return nb[:total], true
+	}
+	return nil, false
+}
